@@ -80,6 +80,9 @@ class ReferenceImpl(Derivable, Impl):
     def on_inherit(self, updater, bases):
 
         self.model.clear_obj(self)
+        # The value may change: clear the values calculated by reading
+        # this reference through attribute access to its space
+        self.model.clear_attr_referrers(self)
         if bases[0].has_interface():
 
             if self.refmode == "absolute":
